@@ -57,6 +57,10 @@ CHECKS = {
    text='For every text (all (parent, child, side) operator triples printed with minimal parentheses, unary over negative constants, implicit products, P texts in 3 spellings, hand-written surface variety) the real format() output must be accepted and z3 decides objective-value equality and per-constraint truth-value equality for all assignments plus equivalence of the compiled linear models; format(format(t)) == format(t) is evaluated.',
    note='Meaning part only is solver-decided; idempotence is a string comparison. Outside: iteration blocks and declaration forms beyond those the family contains.',
    ref='DESIGN §3 C11'),
+ 'C12': dict(cat=TV, tech='real Model / LinearModel renderings re-compiled by the real parser, type checker and linearizer; z3 decides (exists/forall LRA+LIA) projection equivalence of original and re-compiled linear model for all assignments',
+   text='For every compiled Model and LinearModel of the family (M1, seeded M(3) with names, seeded L(3,3) with coefficients 1e-9..1e9, offsets, satisfy) the real to_string() text must parse, type-check and compile, and the re-compiled linear model must have the same projection on the original variables and the same best objective, decided by z3 for all assignments.',
+   note='Meaning part only; row-for-row identity and the render-compile-render fixpoint are not claimed (no value quantifier). Family restricted to well-typed models (no numeric literal in a logic position). Known finding F-bounds-float-cancellation on ill-conditioned rows.',
+   ref='DESIGN §3 C12'),
 }
 NA = {
  'C04': 'no value quantifier: every clause evaluates one returned point; the solver bridges (microlp, Clarabel, IndexMap) cannot be executed symbolically (DESIGN §3 C04); its premises are still evaluated inside C03/C05/C15',
